@@ -88,6 +88,17 @@ theorem slice_writeAt_inside (f bs : List Nat) (off o n : Nat) (h : off + bs.len
     congr 1; omega
   · rw [if_neg hi, if_neg hi]
 
+theorem writeAt_cover (f b1 b2 : List Nat) (o1 o2 : Nat) (h1 : o1 + b1.length ≤ f.length)
+    (h2 : o2 + b2.length ≤ f.length) (hc : o2 ≤ o1 ∧ o1 + b1.length ≤ o2 + b2.length) :
+    writeAt (writeAt f o1 b1) o2 b2 = writeAt f o2 b2 := by
+  have hl := writeAt_length f b1 o1 h1
+  apply List.ext_getElem?
+  intro i
+  rw [getElem?_writeAt _ _ _ _ (by rw [hl]; exact h2), getElem?_writeAt _ _ _ _ h2]
+  by_cases hi : o2 ≤ i ∧ i < o2 + b2.length
+  · rw [if_pos hi, if_pos hi]
+  · rw [if_neg hi, if_neg hi, getElem?_writeAt _ _ _ _ h1, if_neg (by omega)]
+
 /-! ### what the regenerated data says (re-checked by the kernel whenever `Gen/Money.lean` changes) -/
 
 theorem gen_facts :
@@ -302,6 +313,78 @@ theorem recSetMoney_other (rec : List Nat) (v : Int) (h : rec.length = Gen.Money
   unfold recSetMoney MOFF
   rw [getElem?_writeAt _ _ _ _ (by rw [le32_length, h]; exact gen_facts.2.2.2.1), le32_length, if_neg hj]
 
+/-- the order read from the source: the balance is set before the record is written. -/
+theorem regOrder_eq : regOrder = ["setMoney", "writeRecord"] := by decide
+
+theorem passwdSyncUpdate_valid (s : State) (f : List Nat) (u v : Int) (rec : List Nat)
+    (hf : s.file = some f) (hu : Valid u) (hc : shmAt s u = some v) :
+    passwdSyncUpdate s u rec = (afterSync s f u (recSetMoney rec v), .ok .none) := by
+  obtain ⟨h0, hk, _⟩ := valid_bounds u hu
+  have hv : uidIsValid u = true := (uidIsValid_iff u).2 hu
+  unfold passwdSyncUpdate passwdUpdate afterSync
+  simp only [hv, Bool.not_true, Bool.false_eq_true, if_false, moneyOf_valid s u v hu hc, hf, toIdx_valid u hu]
+  rw [if_neg (by omega)]
+  rfl
+
+theorem passwdSyncUpdate_invalid (s : State) (u : Int) (rec : List Nat) (hu : ¬ Valid u) :
+    passwdSyncUpdate s u rec = (s, .ok .invalidUID) := by
+  have hv : uidIsValid u = false := by
+    cases h : uidIsValid u
+    · rfl
+    · exact absurd ((uidIsValid_iff u).1 h) hu
+  unfold passwdSyncUpdate
+  simp [hv]
+
+/-- with the order pinned, the tail of `SetupNewUser` is `SetUMoney` followed by `passwdSyncUpdate`. -/
+theorem regTail_pinned (s : State) (u m : Int) (rec : List Nat) (x : Int × Err)
+    (hx : (setUMoney s u m).2 = .ok x) :
+    regTail ["setMoney", "writeRecord"] s u rec m = passwdSyncUpdate (setUMoney s u m).1 u rec := by
+  simp only [regTail, hx, if_true]
+  simp only [show ("writeRecord" = "setMoney") = False from by decide, if_false]
+  unfold passwdSyncUpdate
+  split
+  · rfl
+  · split
+    · rfl
+    · rename_i v hv
+      simp only
+      split
+      · rfl
+      · rename_i h
+        have : (passwdUpdate (setUMoney s u m).1 u (recSetMoney rec v)).2 = Err.none := by
+          simpa using h
+        rw [this]
+
+/-- the state after an accepted registration at slot `u`. -/
+def afterNew (s : State) (f : List Nat) (u : Int) (rec : List Nat) (m : Int) : State :=
+  { shm := s.shm.set (u - 1).toNat m,
+    file := some (writeAt f (Gen.Money.recSize * (u - 1).toNat) (recSetMoney rec m)) }
+
+theorem newuser_valid (s : State) (f : List Nat) (u m : Int) (rec : List Nat) (hs : s.shm.length = MAX)
+    (hf : s.file = some f) (hlen : f.length = Gen.Money.recSize * MAX) (hr : rec.length = Gen.Money.recSize)
+    (hu : Valid u) :
+    regTail regOrder s u rec m = (afterNew s f u rec m, .ok .none) := by
+  obtain ⟨_, hk, _⟩ := valid_bounds u hu
+  have hset := setUMoney_valid s f u m hs hf hu
+  rw [regOrder_eq, regTail_pinned s u m rec (m, .none) (by rw [hset]), hset]
+  have hc : shmAt (afterSet s f u m) u = some m := by
+    rw [shmAt_afterSet s f u m u hs hu hu, if_pos rfl]
+  rw [passwdSyncUpdate_valid (afterSet s f u m) _ u m rec rfl hu hc]
+  unfold afterSync afterNew afterSet
+  simp only
+  have hlay := gen_facts.2.2.2.1
+  have h1 : Gen.Money.recSize * ((u - 1).toNat + 1) ≤ Gen.Money.recSize * MAX := Nat.mul_le_mul_left _ hk
+  rw [Nat.mul_succ] at h1
+  rw [writeAt_cover f (le32 m) (recSetMoney rec m) _ _ (by rw [le32_length, hlen]; omega)
+    (by rw [recSetMoney_length rec m hr, hlen]; exact h1)
+    (by rw [le32_length, recSetMoney_length rec m hr]; omega)]
+
+theorem newuser_invalid (s : State) (u m : Int) (rec : List Nat) (hu : ¬ Valid u) :
+    regTail regOrder s u rec m = (s, .ok .invalidUID) := by
+  have hset := setUMoney_invalid s u m hu
+  rw [regOrder_eq, regTail_pinned s u m rec (-1, .invalidUID) (by rw [hset]), hset]
+  exact passwdSyncUpdate_invalid s u rec hu
+
 theorem setUserPerm_invalid (s : State) (u : Int) (rec : List Nat) (perm : Nat) (hu : ¬ Valid u) :
     setUserPerm s u rec perm = (s, .ok (0, .invalidUID)) := by
   have hv : uidIsValid u = false := by
@@ -383,6 +466,7 @@ def writes : Op → Int → Prop
   | .get _, _ => False
   | .sync u _ _, w => w = u
   | .load _, _ => False
+  | .newuser u _ _, w => w = u
 
 /-- on a valid slot `DeUMoney` is a `SetUMoney` of some value (no arithmetic hypothesis). -/
 theorem de_is_a_set (s : State) (u m : Int) (hs : s.shm.length = MAX) (hu : Valid u) :
@@ -399,12 +483,14 @@ theorem de_is_a_set (s : State) (u m : Int) (hs : s.shm.length = MAX) (hu : Vali
   · exact ⟨_, rfl⟩
   · exact ⟨_, rfl⟩
 
-/-- what a step can be: nothing, a successful set of some value on the valid slot it addresses, or a whole-record
-write of the caller's record (with the perm, and with Money taken from SHM) to the valid slot it addresses. -/
-theorem step_shape (s : State) (f : List Nat) (o : Op) (hs : s.shm.length = MAX) (hf : s.file = some f) :
+/-- what a step can be: nothing; a successful set of some value on the valid slot it addresses; or a whole-record
+write (of `recSize` bytes) to the valid slot it addresses, which leaves the SHM entries of all other slots alone. -/
+theorem step_shape (s : State) (f : List Nat) (o : Op) (hs : s.shm.length = MAX) (hf : s.file = some f)
+    (hlen : f.length = Gen.Money.recSize * MAX) (hrec : RecOK o) :
     (step s o).1 = s ∨ (∃ u m', Valid u ∧ writes o u ∧ (step s o).1 = afterSet s f u m') ∨
-    (∃ u rec perm v, o = .sync u rec perm ∧ Valid u ∧ shmAt s u = some v ∧
-      (step s o).1 = afterSync s f u (recSetMoney (recSetLevel rec perm) v)) := by
+    (∃ u r shm', Valid u ∧ writes o u ∧ recWrite o = true ∧ r.length = Gen.Money.recSize ∧
+      (step s o).1 = { shm := shm', file := some (writeAt f (Gen.Money.recSize * (u - 1).toNat) r) } ∧
+      ∀ v, Valid v → v ≠ u → shm'[(v - 1).toNat]? = s.shm[(v - 1).toNat]?) := by
   cases o with
   | set u m =>
       simp only [step]
@@ -429,8 +515,19 @@ theorem step_shape (s : State) (f : List Nat) (o : Op) (hs : s.shm.length = MAX)
           unfold shmAt
           exact ⟨s.shm[(u - 1).toNat]'(by omega), List.getElem?_eq_getElem (by omega)⟩
         obtain ⟨v, hc⟩ := hc
-        exact ⟨u, rec, perm, v, rfl, hu, hc, by rw [setUserPerm_valid s f u v rec perm hf hu hc]⟩
+        refine ⟨u, recSetMoney (recSetLevel rec perm) v, s.shm, hu, rfl, rfl,
+          recSetMoney_length _ _ (recSetLevel_length rec perm hrec), ?_, fun _ _ _ => rfl⟩
+        rw [setUserPerm_valid s f u v rec perm hf hu hc]; rfl
       · left; rw [setUserPerm_invalid s u rec perm hu]
+  | newuser u rec m =>
+      simp only [step]
+      by_cases hu : Valid u
+      · right; right
+        refine ⟨u, recSetMoney rec m, s.shm.set (u - 1).toNat m, hu, rfl, rfl, recSetMoney_length rec m hrec, ?_, ?_⟩
+        · rw [newuser_valid s f u m rec hs hf hlen hrec hu]; rfl
+        · intro v hv hne
+          exact List.getElem?_set_ne (Ne.symm (slot_ne u v hu hv hne))
+      · left; rw [newuser_invalid s u m rec hu]
 
 /-- `s` represents the abstract table `b`: SHM holds `b` on every valid slot (int32 values), and `.PASSWDS`
 holds `b` on the valid slots in `D`. -/
@@ -487,6 +584,42 @@ theorem agree_sync (s : State) (b : Bal) (D : Int → Prop) (u : Int) (rec : Lis
 theorem agree_mono (s : State) (b : Bal) (D D' : Int → Prop) (h : Agree s b D) (hD : ∀ w, D' w → D w) :
     Agree s b D' := ⟨h.1, h.2.1, fun u hu hd => h.2.2 u hu (hD u hd)⟩
 
+/-- `passwdSyncUpdate` with ANY record keeps (for that slot: establishes) the agreement. -/
+theorem agree_psu (s : State) (b : Bal) (D : Int → Prop) (u : Int) (rec : List Nat)
+    (h : Agree s b D) (hu : Valid u) (hr : rec.length = Gen.Money.recSize) :
+    (passwdSyncUpdate s u rec).2 = .ok .none ∧
+    Agree (passwdSyncUpdate s u rec).1 b (fun w => D w ∨ w = u) := by
+  obtain ⟨⟨hs, f, hf, hlen⟩, hshm, hdisk⟩ := h
+  rw [passwdSyncUpdate_valid s f u (b u) rec hf hu (hshm u hu).1]
+  have hl2 := recSetMoney_length rec (b u) hr
+  refine ⟨rfl, wf_afterSync s f u _ hs hlen hl2 hu, fun v hv => hshm v hv, ?_⟩
+  intro v hv hD
+  unfold diskAt afterSync
+  simp only [Option.bind_some]
+  rw [moneyBytes_afterSync f u v _ hlen hl2 hu hv]
+  by_cases e : v = u
+  · rw [if_pos e, recSetMoney_money _ _ hr, dec32_le32 _ (hshm u hu).2, e]
+  · rw [if_neg e]
+    rcases hD with hD | hD
+    · have := hdisk v hv hD
+      unfold diskAt at this
+      rw [hf] at this
+      exact this
+    · exact absurd hD e
+
+/-- an accepted registration at a valid slot: whatever the slot held, SHM and .PASSWDS hold the record's balance. -/
+theorem agree_newuser (s : State) (b : Bal) (D : Int → Prop) (u m : Int) (rec : List Nat)
+    (h : Agree s b D) (hu : Valid u) (hm : Int32 m) (hr : rec.length = Gen.Money.recSize) :
+    (regTail regOrder s u rec m).2 = .ok .none ∧
+    Agree (regTail regOrder s u rec m).1 (upd b u m) (fun w => D w ∨ w = u) := by
+  have hset := agree_set s b D u m h hu hm
+  rw [regOrder_eq, regTail_pinned s u m rec (m, .none) hset.1]
+  have hp := agree_psu (setUMoney s u m).1 (upd b u m) _ u rec hset.2 hu hr
+  exact ⟨hp.1, agree_mono _ _ _ _ hp.2 (fun w hw => by
+    rcases hw with hw | hw
+    · exact Or.inl (Or.inl hw)
+    · exact Or.inr hw)⟩
+
 /-- one step: the model step represents the abstract step, and answers what the abstract table says. -/
 theorem agree_step (s : State) (b : Bal) (D : Int → Prop) (o : Op) (h : Agree s b D) (hno : NoOverflow b o) :
     Agree (step s o).1 (specStep b o) (fun w => D w ∨ writes o w) := by
@@ -537,6 +670,16 @@ theorem agree_step (s : State) (b : Bal) (D : Int → Prop) (o : Op) (h : Agree 
         rcases hD with hD | hD
         · exact h.2.2 v hv hD
         · exact absurd (hD ▸ hv) hu
+  | newuser u rec m =>
+      simp only [step, specStep]
+      by_cases hu : Valid u
+      · rw [if_pos hu]; exact (agree_newuser s b D u m rec h hu hno.1 hno.2).2
+      · rw [if_neg hu, newuser_invalid s u m rec hu]
+        refine ⟨h.1, h.2.1, ?_⟩
+        intro v hv hD
+        rcases hD with hD | hD
+        · exact h.2.2 v hv hD
+        · exact absurd (hD ▸ hv) hu
 
 theorem agree_run (os : List Op) : ∀ (s : State) (b : Bal) (D : Int → Prop), Agree s b D → NoOverflowRun b os →
     Agree (run s os) (specRun b os) (fun w => D w ∨ ∃ o ∈ os, writes o w) := by
@@ -567,6 +710,7 @@ theorem deNew_nonneg (cur m : Int) (h : 0 ≤ cur) : 0 ≤ deNew cur m := by
 def SetsNonneg : List Op → Prop
   | [] => True
   | .set _ m :: os => 0 ≤ m ∧ SetsNonneg os
+  | .newuser _ _ m :: os => 0 ≤ m ∧ SetsNonneg os
   | _ :: os => SetsNonneg os
 
 theorem specRun_nonneg (os : List Op) : ∀ (b : Bal), (∀ u, Valid u → 0 ≤ b u) → SetsNonneg os →
@@ -600,5 +744,15 @@ theorem specRun_nonneg (os : List Op) : ∀ (b : Bal), (∀ u, Valid u → 0 ≤
       | get w => exact ih _ hb hs
       | sync w rec perm => exact ih _ hb hs
       | load w => exact ih _ hb hs
+      | newuser w rec m =>
+          refine ih _ ?_ hs.2
+          intro v hv
+          simp only [specStep]
+          split
+          · unfold upd
+            split
+            · exact hs.1
+            · exact hb v hv
+          · exact hb v hv
 
 end PttVerif.C20
